@@ -391,19 +391,9 @@ Proof.
     rewrite <- SF2R_Q2R, Hr. unfold gridQ, Q2R, F2R. cbn [Qnum Qden Fnum Fexp].
     rewrite Z2Pos.id by (apply Z.pow_pos_nonneg; lia).
     rewrite (IZR_Zpower radix2) by lia. rewrite <- bpow_opp. reflexivity. }
-  rewrite (float_to_int_nearest_on_guard F64 dt (fl k m)); try assumption; try reflexivity.
-  - unfold nearest_sat. assert (Hi : is_int dt = true) by (destruct dt; try discriminate Hd; reflexivity).
-    rewrite Hi. do 2 f_equal. apply rhe_Q_Qeq. exact Hq.
-  - (* outside the uint64 top region: the value is below 2^53 *)
-    unfold uint64_top_guard. cbn [is_int negb andb num2Q].
-    destruct (dtype_eqb dt U64); [|reflexivity]. cbn [andb].
-    destruct (Qle_bool (inject_Z two64z) (SF2Q (fl k m))) eqn:E; [|reflexivity].
-    exfalso. apply Qle_bool_iff in E. rewrite Hq in E.
-    unfold Qle, gridQ, inject_Z in E. cbn [Qnum Qden] in E.
-    rewrite Z2Pos.id in E by (apply Z.pow_pos_nonneg; lia).
-    assert (0 < 2 ^ k) by (apply Z.pow_pos_nonneg; lia).
-    unfold two64z in E. change (2 ^ 64) with 18446744073709551616 in E.
-    change (2 ^ 53) with 9007199254740992 in Hm. nia.
+  rewrite (float_to_int_nearest F64 dt (fl k m)); try assumption; try reflexivity.
+  unfold nearest_sat. assert (Hi : is_int dt = true) by (destruct dt; try discriminate Hd; reflexivity).
+  rewrite Hi. do 2 f_equal. apply rhe_Q_Qeq. exact Hq.
 Qed.
 
 (* values small enough for the grid of multiples of 2^-k *)
